@@ -11,6 +11,8 @@ Gen/Backends.lean
   latexAscii         the `ulatex+<default encoding>` encoder on each ASCII character: (character, emitted text, whether the
                      emitted text ends in a control word, i.e. puts the encoder in space-eating mode), only for the
                      characters that are not passed through unchanged
+  latexUnicode       what the `ulatex+ascii` encoder emits for each non-ASCII character it can translate (same triple);
+                     every other non-ASCII character raises UnicodeEncodeError unless the input encoding has it
   plainSymbols       `plaintext.Backend.symbols`
   defaultEncoding    `pybtex.io.get_default_encoding()`
 
@@ -59,9 +61,15 @@ def probe_html_escape():
 
 
 def probe_latex_encoder():
-    from pybtex.backends import latex
-    b = latex.Backend()
-    enc = b.format_str
+    # the codec itself (a library), not pybtex's format_str: a change of format_str must show up as a difference
+    # between the code and the model, not as a regenerated table
+    import codecs
+    import latexcodec  # noqa: F401
+    import pybtex.io
+    name = 'ulatex+' + pybtex.io.get_default_encoding()
+
+    def enc(s):
+        return codecs.encode(s, name)
     table = []
     full = {}
     for i in range(128):
@@ -104,12 +112,62 @@ def probe_latex_encoder():
     return table
 
 
+def probe_latex_unicode():
+    """the non-ASCII part of the translation table, as the `ulatex+ascii` encoder applies it: [(char, text, eats)];
+    verified: (1) a character outside the table raises UnicodeEncodeError under ascii, (2) under latin-1 the characters
+    below U+0100 are passed through and all others are translated as under ascii, (3) the two-state machine (blank /
+    control space after a control word) explains what follows a translated character"""
+    import codecs
+    import latexcodec  # noqa: F401
+    import latexcodec.codec as lc
+
+    def enc(s, e='ascii'):
+        return codecs.encode(s, 'ulatex+' + e)
+
+    keys = sorted(k for k in lc._LATEX_UNICODE_TABLE.latex_map if len(k) == 1 and ord(k) >= 128)
+    if any(len(k) != 1 for k in lc._LATEX_UNICODE_TABLE.latex_map):
+        raise ValueError('latexcodec: a translation key of more than one character')
+    table = []
+    for k in keys:
+        e = enc(k)
+        if enc(k + 'a') == e + ' a' and enc(k + ' ') == e + '\\ ':
+            eats = True
+        elif enc(k + 'a') == e + 'a' and enc(k + ' ') == e + ' ':
+            eats = False
+        else:
+            raise ValueError('latex encoder: %r followed by a letter / a blank is not explained by the two-state machine' % k)
+        if not e.isascii() or not e:
+            raise ValueError('latex encoder: the translation %r of %r is empty or not ASCII' % (e, k))
+        if enc('~' + k) != '\\textasciitilde' + ('\\ ' + e[1:] if e.startswith(' ') else ' ' + e):
+            raise ValueError('latex encoder: %r after a control word is not explained by the two-state machine' % k)
+        if ord(k) < 256:
+            if enc(k, 'latin-1') != k:
+                raise ValueError('latex encoder with latin-1 does not pass %r through' % k)
+        elif enc(k, 'latin-1') != e:
+            raise ValueError('latex encoder with latin-1 translates %r differently' % k)
+        if enc(k, 'UTF-8') != k:
+            raise ValueError('latex encoder with UTF-8 does not pass %r through' % k)
+        table.append((k, e, eats))
+    known = set(keys)
+    for cp in list(range(128, 0x500)) + [0x2028, 0x20ac, 0x4e2d, 0x1d400]:
+        c = chr(cp)
+        if c in known:
+            continue
+        try:
+            enc(c)
+        except UnicodeEncodeError:
+            continue
+        raise ValueError('latex encoder: %r is not in the table but is encoded under ascii' % c)
+    return table
+
+
 @tables.generator
 def gen_backends():
     import pybtex.io
     from pybtex.backends import html, latex, markdown, plaintext
     esc = probe_html_escape()
     enc = probe_latex_encoder()
+    uni = probe_latex_unicode()
     pro = html.PROLOGUE
     if pro.count('%s') != 1 or pro.count('%') != 1:
         raise ValueError('html.PROLOGUE is expected to contain exactly one %s and no other %')
@@ -145,6 +203,10 @@ def gen_backends():
              'in a control word): %s -/\n' % (pybtex.io.get_default_encoding(), _safe('; '.join('%r -> %r%s' % (c, e, ' (control word)' if s else '') for c, e, s in enc))))
     body += 'def latexAscii : List (Char × Str × Bool) :=\n  [%s]\n\n' % ',\n   '.join(
         '(Char.ofNat %d, %s, %s)' % (ord(c), _chars(e), 'true' if s else 'false') for c, e, s in enc)
+    body += ('/-- the non-ASCII part of latexcodec\'s translation table as the `ulatex+ascii` encoder applies it (%d characters): (character,\n'
+             'emitted text, the text ends in a control word) -/\n' % len(uni))
+    body += 'def latexUnicode : List (Char × Str × Bool) :=\n  [%s]\n\n' % ',\n   '.join(
+        '(Char.ofNat %d, %s, %s)' % (ord(c), _chars(e), 'true' if s else 'false') for c, e, s in uni)
     ps = list(plaintext.Backend.symbols.items())
     body += '/-- `plaintext.Backend.symbols`: %s -/\n' % _comment(ps)
     body += 'def plainSymbols : List (Str × Str) :=\n  %s\n\n' % _pairs(ps)
